@@ -949,4 +949,106 @@ example :
     [[0xa1], [0xb2]] rfl rfl (by decide) (by decide) (by decide) (by decide)
   simpa [selectPartitioner, encodeKey, be16] using this
 
+/-! ### the routing token of a BATCH -/
+
+/-- **A batch is routed by the token of its FIRST row under its FIRST statement**, when that statement is prepared:
+whatever the other statements (their partitioners, their pk tables) and the other rows are. -/
+theorem batch_token_first_row_first_statement (cdc : Bool) (pk : List PkIndex) (ncols : Nat)
+    (rest : List BatchStmt) (row : List RawValue) (rows : List (List RawValue))
+    (hcols : row.length = ncols) (hmax : row.length ≤ 65535) :
+    batchFirstToken (.prepared cdc pk ncols :: rest) (row :: rows) = calculateToken cdc pk row ∧
+    batchFirstToken (.prepared cdc pk ncols :: rest) (row :: rows) = boundCalculateToken cdc pk row := by
+  unfold batchFirstToken boundCalculateToken
+  simp only []
+  rw [if_neg (by omega), if_neg (by omega)]
+  exact ⟨rfl, rfl⟩
+
+/-- The token formula for batches: with the first statement's key markers `wire` and the first row binding every key
+component, the batch's routing token is the server-side token of that row's key (same hypotheses as `token_formula`). -/
+theorem batch_token_formula (cdc : Bool) (wire : List Nat) (rest : List BatchStmt) (row : List RawValue)
+    (rows : List (List RawValue)) (comps : List (List UInt8))
+    (hne : wire ≠ []) (hnd : wire.Nodup) (hlt : ∀ ix ∈ wire, ix < row.length) (hv : row.length ≤ 65535)
+    (hbound : keyOf wire row = comps.map some)
+    (hsmall : 2 ≤ comps.length → ∀ c ∈ comps, c.length ≤ 65535) :
+    batchFirstToken (.prepared cdc (pkIndexesOfWire wire) row.length :: rest) (row :: rows) =
+      .ok (some (if cdc then cdcRust (encodeKey comps) else murmur3Spec (encodeKey comps))) := by
+  rw [(batch_token_first_row_first_statement cdc _ row.length rest row rows rfl hv).1]
+  exact token_formula cdc wire row comps hne hnd hlt hv hbound hsmall
+
+/-- No token (the batch goes to any node): an empty batch, an unprepared first statement — even when later statements
+are prepared —, or no values. -/
+theorem batch_no_token (stmts : List BatchStmt) (rows : List (List RawValue))
+    (h : stmts = [] ∨ (∃ rest, stmts = .unprepared :: rest) ∨ rows = []) :
+    batchFirstToken stmts rows = .ok none := by
+  unfold batchFirstToken
+  rcases h with rfl | ⟨rest, rfl⟩ | rfl
+  · rfl
+  · rfl
+  · cases stmts with
+    | nil => rfl
+    | cons s rest => cases s <;> rfl
+
+/-- A first row that does not have one value per bind marker of the first statement is a serialization error (the
+batch is not sent). -/
+theorem batch_first_row_mismatch (cdc : Bool) (pk : List PkIndex) (ncols : Nat) (rest : List BatchStmt)
+    (row : List RawValue) (rows : List (List RawValue)) (h : row.length ≠ ncols) :
+    batchFirstToken (.prepared cdc pk ncols :: rest) (row :: rows) = .error .serialization := by
+  unfold batchFirstToken
+  simp only []
+  rw [if_pos (Or.inl h)]
+
+-- non-vacuity: statements (prepared on key (marker 1, marker 0); unprepared; prepared CDC), rows differ: the token
+-- is that of the first row under the first statement
+example :
+    batchFirstToken [.prepared false (pkIndexesOfWire [1, 0]) 2, .unprepared, .prepared true (pkIndexesOfWire [0]) 1]
+        [[.value [0xa1, 0xa2], .value [0xbb]], [.value [1], .value [2]], [.value [3]]] =
+      .ok (some (murmur3Spec [0, 1, 0xbb, 0, 0, 2, 0xa1, 0xa2, 0])) := by
+  have h := batch_token_formula false [1, 0] [.unprepared, .prepared true (pkIndexesOfWire [0]) 1]
+    [.value [0xa1, 0xa2], .value [0xbb]] [[.value [1], .value [2]], [.value [3]]] [[0xbb], [0xa1, 0xa2]]
+    (by decide) (by decide) (by decide) (by decide) (by decide) (by decide)
+  exact h
+
+/-! ### `compute_token_preserialized` and the Minimal schema fetch level -/
+
+/-- On a key with one value per partition-key column the preserialized entry point is `compute_token`. -/
+theorem preserialized_eq_compute_token (schema : TableSnapshot) (ks table : List UInt8)
+    (tables : List (List UInt8 × TableInfo)) (t : TableInfo) (key : List RawValue)
+    (hks : schema.lookup ks = some tables) (ht : tables.lookup table = some t)
+    (hcount : key.length = t.pkColumns) (hmax : key.length ≤ 65535) :
+    clusterComputeTokenPreserialized schema ks table key = clusterComputeToken schema ks table key := by
+  unfold clusterComputeTokenPreserialized clusterComputeToken
+  rw [hks]; simp only []; rw [ht]; simp only []
+  rw [if_neg (by omega)]
+
+/-- It checks nothing about the key's shape: for ANY number of fully bound components (whatever the table's key
+columns are) it returns the token of their encoding under the table's partitioner; an unknown table is still an error. -/
+theorem preserialized_formula (schema : TableSnapshot) (ks table : List UInt8)
+    (tables : List (List UInt8 × TableInfo)) (t : TableInfo) (comps : List (List UInt8))
+    (hks : schema.lookup ks = some tables) (ht : tables.lookup table = some t) (hne : comps ≠ [])
+    (hsmall : 2 ≤ comps.length → ∀ c ∈ comps, c.length ≤ 65535) :
+    clusterComputeTokenPreserialized schema ks table (comps.map .value) =
+      .ok (if selectPartitioner t.partitioner = .cdc then cdcRust (encodeKey comps)
+           else murmur3Spec (encodeKey comps)) := by
+  unfold clusterComputeTokenPreserialized
+  rw [hks]; simp only []; rw [ht]; simp only []
+  rw [tokenForPartitionKey_formula _ comps hne hsmall]
+  simp only []
+  cases selectPartitioner t.partitioner <;> simp
+
+/-- With `fetch_full_schema_metadata(false)` (`SchemaMetadataFetchLevel::Minimal`) tables carry their partitioner but
+no partition-key columns: `compute_token` then fails for every non-empty key (serialization error), while prepared
+statements (`preparedPartitioner_cdc_iff` needs only the partitioner string) and the preserialized entry point work. -/
+theorem compute_token_minimal_level (schema : TableSnapshot) (ks table : List UInt8)
+    (tables : List (List UInt8 × TableInfo)) (t : TableInfo) (key : List RawValue)
+    (hks : schema.lookup ks = some tables) (ht : tables.lookup table = some t)
+    (hmin : t.pkColumns = 0) (hne : key ≠ []) :
+    clusterComputeToken schema ks table key = .error .serialization := by
+  unfold clusterComputeToken
+  rw [hks]; simp only []; rw [ht]; simp only []
+  have : key.length ≠ 0 := fun h => hne (List.eq_nil_of_length_eq_zero h)
+  rw [if_pos (Or.inl (by omega))]
+
+example : clusterComputeToken [([1], [([2], ⟨0, some cdcSuffix⟩)])] [1] [2] [.value [7]] = .error .serialization :=
+  compute_token_minimal_level _ [1] [2] [([2], ⟨0, some cdcSuffix⟩)] ⟨0, some cdcSuffix⟩ _ rfl rfl rfl (by decide)
+
 end ScyllaVerif.Props.C03
